@@ -123,7 +123,8 @@ def print_stubs(cx, engine):
 
     return [
         (re.compile(r"^<W as std::io::Write>::write_all$"), h_write_all),
-        (re.compile(r"^<W as std::io::Write>::write$"), h_write),
+        (re.compile(r"^<W as std::io::Write>::(write|write_vectored)$"), h_write),
+        (re.compile(r"^(?:std::io::)?IoSlice::<'_>::new$"), lambda e, st, fr, c, a, m: Blob("ioslice")),
         (re.compile(r"^<W as std::io::Write>::write_fmt$"), h_write_fmt),
         (re.compile(r"^core::fmt::rt::Argument::<'_>::new_(\w+)::<\w+>$"), h_fmt_arg),
         (re.compile(r"^(?:core::fmt::)?Arguments::<'_>::new(?:_v1|_const)?::<"), h_fmt_args),
@@ -663,15 +664,15 @@ CLAIMS = [
           "every leaf formatter method of the default and the customised formatter writes only through write_all, stops "
           "at the first failed write and returns that error, returns Ok only if all writes succeeded, and emits exactly "
           "the documented spelling for every argument and all 576 printer option sets",
-          "all paths; writer returning an arbitrary error at any write", configs=("fast",), also=("C01", "C02", "C13")),
+          "all paths; writer returning an arbitrary error at any write", configs=("fast",), also=("C01", "C02", "C13", "C17")),
     Claim("c07_escape_emissions", "C07", "quick", claim_escapes,
           "string escape writers (R6RS and Emacs), CharEscape::from_escape_table and the compiled ESCAPE table: every byte "
           "is classified and spelled as documented (\\a \\b \\t \\n \\r \\\" \\\\, \\xHH; resp. \\u00HH), written with write_all",
-          "all 256 bytes, both string syntaxes", configs=("fast",), also=("C01", "C02", "C13")),
+          "all 256 bytes, both string syntaxes", configs=("fast",), also=("C01", "C02", "C13", "C17")),
     Claim("c07_char_emissions", "C07", "quick", claim_chars,
           "write_scheme_char / write_elisp_char: printable ASCII literally (Emacs: backslash before ()[]\\;|'`#.,), every "
           "other scalar value as lower-case hex through write_fmt",
-          "every Unicode scalar value", configs=("fast",), also=("C01", "C02", "C13")),
+          "every Unicode scalar value", configs=("fast",), also=("C01", "C02", "C13", "C17")),
     Claim("c01_print_list_structure", "C01", "quick", claim_print_structure,
           "Printer::print on a list: per cell separator iff not the first, the element, and ` . tail` exactly when the cdr "
           "is neither the empty list nor a pair; end_list after the last cell; errors of any formatter call stop the output",
@@ -788,4 +789,138 @@ CLAIMS += [
           "stops at the first failed write, and Ok is returned only if every write succeeded",
           "all paths of 30+ printer functions, arbitrary arguments and options, writer failing at an arbitrary write",
           configs=("fast",)),
+]
+
+
+# ----------------------------------------------------------------------------- entry points (C07: errors surface)
+
+def claim_entry_points(cx, res, kf):
+    """to_writer / to_writer_custom hand the caller's sink itself to the printer (no layer in between that could hold back
+    bytes or swallow a failure), print exactly once, and return Err exactly when printing failed; the to_vec family prints
+    into its own vector through the same functions and returns that vector."""
+    from . import confirm as CF
+    onm = CF.confirm(("printcheck",), res)
+
+    def explore(fname, nargs):
+        fn = cx.fns.get(fname) or cx.fns.get("print::" + fname)
+        if fn is None:
+            raise Unsupported("entry point %s not found" % fname)
+        eng = C.make_engine(cx, [], loop_mode="cut", timeout_s=60, max_paths=2000)
+        n = [0]
+
+        def seq(k):
+            n[0] += 1
+            return "%s_%d" % (k, n[0])
+
+        def h_ctor(engine, st, fr, callee, argv, m):
+            st.events.append(("ctor", m.group(1), argv[0]))
+            return Opaque("Printer", "printer", {"writer": argv[0]})
+
+        def h_print(engine, st, fr, callee, argv, m):
+            p = argv[0]
+            while isinstance(p, Ref):
+                p = engine.load(st, p.addr)
+            err = z3.Bool(seq("print_err"))
+            st.events.append(("print", p, err))
+            return S.mk_result(engine, err, UnitV(), Opaque("io::Error", "print", {}))
+
+        def h_entry(engine, st, fr, callee, argv, m):
+            err = z3.Bool(seq("entry_err"))
+            st.events.append(("entry", m.group(1), argv[0], err))
+            return S.mk_result(engine, err, UnitV(), Opaque("io::Error", "entry", {}))
+
+        def h_vec(engine, st, fr, callee, argv, m):
+            return Opaque("Vec<u8>", "own vector", {})
+
+        def h_unchecked(engine, st, fr, callee, argv, m):
+            st.events.append(("string_of", argv[0]))
+            return Opaque("String", "string", {"of": argv[0]})
+
+        def h_other(engine, st, fr, callee, argv, m):
+            st.events.append(("other", callee.split("::<")[0]))
+            return Blob("other:" + callee.split("::<")[0])
+        eng.stubs = [
+            (re.compile(r"^Printer::<.*>::(new|with_options|with_formatter)$"), h_ctor),
+            (re.compile(r"^Printer::<.*>::print$"), h_print),
+            (re.compile(r"^(to_writer|to_writer_custom|to_vec|to_vec_custom)::<?"), h_entry),
+            (re.compile(r"^(to_vec|to_vec_custom)$"), h_entry),
+            (re.compile(r"^Vec::<u8>::with_capacity$"), h_vec),
+            (re.compile(r"^String::from_utf8_unchecked$"), h_unchecked),
+        ] + S.COMBINATOR_STUBS + S.CORE_STUBS + [(re.compile(r"^(?!<.* as (Try|FromResidual)).*$"), h_other)]
+        info = {}
+
+        def init(e, st, fr):
+            for i, a in enumerate(fn.args):
+                ty = fn.local_ty.get(a, "").strip()
+                fr.locals[a] = Opaque(ty, "writer" if ty == "W" else "arg%d" % i, {})
+            info["args"] = [fr.locals[a] for a in fn.args]
+            return []
+        terms = eng.explore(fn.name, init)
+        res.absorb(eng)
+        return eng, fn, info, terms
+
+    def unref(eng, st, v):
+        while isinstance(v, Ref):
+            v = eng.load(st, v.addr)
+        return v
+    n_ok = 0
+    for fname in ("to_writer", "to_writer_custom"):
+        eng, fn, info, terms = explore(fname, 0)
+        def is_w(x):
+            return isinstance(x, Opaque) and x.label == "writer"
+        for t in terms:
+            st = t.state
+            pc = list(st.pc)
+            if t.kind == "PANIC":
+                res.must_be_unsat(pc, "%s: reachable panic" % fname, onm)
+                continue
+            if t.kind != "RETURN":
+                continue
+            ev = st.events
+            others = [e for e in ev if e[0] == "other"]
+            ctors = [e for e in ev if e[0] == "ctor"]
+            prints = [e for e in ev if e[0] == "print"]
+            if others or len(ctors) != 1 or not is_w(ctors[0][2]):
+                res.must_be_unsat(pc, "%s does not hand the caller's sink itself to the printer (%s): bytes can be held back and a "
+                                  "failing or full sink can go unreported" % (fname, ", ".join(e[1] for e in others) or "other constructor argument"), onm)
+                continue
+            if len(prints) != 1 or not (isinstance(prints[0][1], Opaque) and is_w(prints[0][1].attrs.get("writer"))):
+                res.must_be_unsat(pc, "%s does not print the value exactly once into the caller's sink" % fname, onm)
+                continue
+            kind, payload = K.classify_return(eng, t)
+            perr = prints[0][2]
+            if kind == "ok":
+                n_ok += 1
+                res.must_be_unsat(pc + [perr], "%s reports success although printing failed" % fname, onm)
+            elif kind == "err":
+                res.must_be_unsat(pc + [z3.Not(perr)], "%s reports an error although printing succeeded" % fname, onm)
+    for fname, inner in (("to_vec", "to_writer"), ("to_vec_custom", "to_writer_custom"), ("to_string", "to_vec"), ("to_string_custom", "to_vec_custom")):
+        eng, fn, info, terms = explore(fname, 0)
+        for t in terms:
+            st = t.state
+            pc = list(st.pc)
+            if t.kind == "PANIC":
+                res.must_be_unsat(pc, "%s: reachable panic" % fname, onm)
+                continue
+            if t.kind != "RETURN":
+                continue
+            ent = [e for e in st.events if e[0] == "entry"]
+            others = [e for e in st.events if e[0] == "other"]
+            if others or len(ent) != 1 or ent[0][1] != inner:
+                res.must_be_unsat(pc, "%s is not `%s` into a fresh vector (%r)" % (fname, inner, [e[1] for e in others + ent]), onm)
+                continue
+            kind, payload = K.classify_return(eng, t)
+            if kind == "ok":
+                n_ok += 1
+                res.must_be_unsat(pc + [ent[0][3]], "%s reports success although printing failed" % fname, onm)
+            elif kind == "err":
+                res.must_be_unsat(pc + [z3.Not(ent[0][3])], "%s reports an error although printing succeeded" % fname, onm)
+    res.vacuity.append(("entry points return Ok on some path", n_ok >= 6))
+
+
+CLAIMS += [
+    Claim("c07_entry_points", "C07", "quick", claim_entry_points,
+          "to_writer / to_writer_custom construct the printer directly on the caller's sink (nothing in between that buffers), "
+          "print once and return Err exactly when printing failed; to_vec* / to_string* are those functions on a fresh vector",
+          "all paths of the 6 entry points; printing fails or succeeds arbitrarily", configs=("fast",), also=("C17",)),
 ]
